@@ -533,6 +533,45 @@ Theorem sanitize_first_string_empty : forall p : pprofile, nth 0 (p_strs (saniti
 Proof. exact ProfSanitizeProofs.sanitize_first_string_empty. Qed.
 Print Assumptions sanitize_first_string_empty.
 
+(* Round 8: the REST of "sanitizeProfile makes every payload sane" -- every reference resolves after the renumbering passes (a
+   location names an existing mapping, a line an existing function, a sample existing locations), every string index lies in
+   the string table, every sample has one value per sample type -- for EVERY decoded payload, well formed or not: the dropping
+   branches of sanitizeProfile establish it.  All ten conjuncts of sane_b; nothing of it is evaluated per payload any more. *)
+From Qryn Require Import proofs.ProfSaneProofs.
+Theorem sanitize_sane : forall p : pprofile, sane_b (sanitize p) = true.
+Proof. exact ProfSaneProofs.sanitize_sane. Qed.
+Print Assumptions sanitize_sane.
+
+(* payload_merge_is_sum with NO hypothesis on the payloads: any decoded payloads (dangling references, duplicate ids, string
+   indices out of range, wrong value counts, any sample types), merged without a refusal (a merge that is not refused has one
+   number of sample types: merge_all_types), fewer than 2^32 merged functions: for every predicate on resolved stacks and every
+   sample type of the merged profile, the merged weight is the sum of the weights of the sanitized payloads. *)
+Theorem payload_merge_is_sum_all : forall (ps : list pprofile) (st : mstate),
+  merge_all exact_keqs mstate0 ps = inl st -> Z.of_nat (length (ms_funs st)) < two32 ->
+  forall (P : list (list fden) -> bool) (k : nat), (k < length (p_types (merged_profile st)))%nat ->
+  eqm (ProfRewrite.weight P k (merged_profile st)) (payload_weights P k ps).
+Proof. exact ProfSaneProofs.payload_merge_is_sum_all. Qed.
+Print Assumptions payload_merge_is_sum_all.
+
+Theorem payload_merge_order_irrelevant_all : forall (ps ps' : list pprofile) (st st' : mstate),
+  Permutation ps ps' ->
+  merge_all exact_keqs mstate0 ps = inl st -> merge_all exact_keqs mstate0 ps' = inl st' ->
+  Z.of_nat (length (ms_funs st)) < two32 -> Z.of_nat (length (ms_funs st')) < two32 ->
+  forall (P : list (list fden) -> bool) (k : nat), (k < length (p_types (merged_profile st)))%nat ->
+  eqm (ProfRewrite.weight P k (merged_profile st)) (ProfRewrite.weight P k (merged_profile st')).
+Proof. exact ProfSaneProofs.payload_merge_order_irrelevant_all. Qed.
+Print Assumptions payload_merge_order_irrelevant_all.
+
+(* merged_profile_closed.  Whatever the payloads, the merged message MergeProfiles answers is closed: function and location
+   ids 1..n in order, the string indices of the functions inside the merged string table, every function id of a line and
+   every location id of a sample names an existing element, every sample has one value per sample type.  The check judges the
+   OBSERVED merged message of every answered merge by closed_b -- malformed payloads included (rw_spec code 5). *)
+Theorem merged_profile_closed : forall (ps : list pprofile) (st : mstate),
+  merge_all exact_keqs mstate0 ps = inl st -> Z.of_nat (length (ms_funs st)) < two32 ->
+  closed_b (length (p_types (merged_profile st))) (merged_profile st) = true.
+Proof. exact ProfSaneProofs.merged_profile_closed. Qed.
+Print Assumptions merged_profile_closed.
+
 (* ---- the exact class of node-id collisions, acyclicity of stored trees, int64 overflow (proofs/ProfCycleProofs.v) *)
 From Qryn Require Import proofs.ProfCycleProofs.
 
